@@ -15,7 +15,8 @@ import Glom.Model.C04Env
               | {"orig":{"mro":[…],"args":[…],"rebuild":[…]|null,"falsy":b},
                  "origin": null | "unknown" | {"injected":true} | {"internal":cls,"args":[…]},
                  "obs": {"returned":"value"|"default"|"none"}
-                      | {"raised":{"mro":[…],"args":[…],"same":b,"instOrig":b,"instGlom":b}}}
+                      | {"raised":{"mro":[…],"args":[…],"sameInj":b,"instInj":b,"sameRec":b,"instRec":b,"instGlom":b}}}
+                        (Inj: relative to the prepared object; Rec: relative to what the recording frame saw)
   AVal: null | {"i":n} | {"s":str} | {"y":hex} | {"o":id}
   Shape: {"sig":[lo, hi|null, kwReq, Store]} | "oserror" | "unicode"
   Store: "all" | "nosuper" | {"pre":k} | "len" | {"const":s} | "rev" | "tme"
@@ -141,7 +142,10 @@ def settingsOfJson (j : Json) : Except String Settings := do
     | _ => none
   return { default := if d then some 1 else none, skipExc := skip, debug := dbg }
 
-def obsOfJson (j : Json) : Except String Obs := do
+/-- the implementation's observation, relative to the exception object that `kind` says
+    reached `glom()`'s handler: the prepared object (`…Inj` flags) or the object the recording
+    frame saw (`…Rec` flags, meaningful when it is an instance of the expected internal class) -/
+def obsOfJson (j : Json) (kind : Outc) (recCls : Option String) : Except String Obs := do
   if let .ok k := j.getObjValAs? String "returned" then
     match k with
     | "value" => return .returned .value
@@ -150,9 +154,13 @@ def obsOfJson (j : Json) : Except String Obs := do
     | _ => throw s!"bad returned kind {k}"
   else
     let r ← j.getObjVal? "raised"
-    return .raised { mro := ← strsOfJson (← r.getObjVal? "mro"), args := ← argsOfJson (← r.getObjVal? "args"),
-                     same := ← r.getObjValAs? Bool "same", instOrig := ← r.getObjValAs? Bool "instOrig",
-                     instGlom := ← r.getObjValAs? Bool "instGlom" }
+    let mro ← strsOfJson (← r.getObjVal? "mro")
+    let flag := fun (k : String) => (r.getObjValAs? Bool k).toOption.getD false
+    let (same, inst) := match kind with
+      | .exc (.internal c) => if recCls == some c then (flag "sameRec", flag "instRec") else (false, mro.contains c)
+      | _ => (flag "sameInj", flag "instInj")
+    return .raised { mro := mro, args := ← argsOfJson (← r.getObjVal? "args"),
+                     same := same, instOrig := inst, instGlom := ← r.getObjValAs? Bool "instGlom" }
 
 def obsToJson : Obs → Json
   | .returned .value => Json.mkObj [("returned", "value")]
@@ -235,14 +243,17 @@ def run (j : Json) : Except String Json := do
     | .val => none
     | .exc .injected => some e0
     | .exc (.internal c) => some (mkInternal c (match implInternal with | some (_, a) => a | none => []))
-  -- origin for the checker: what the recording frame saw, else the model's prediction
-  let implOriginObj : Option ExcObj :=
-    match implOrigin with
-    | .null => none
-    | .str _ => modelOrigin                      -- "unknown": no recording frame
-    | _ => match implInternal with
-      | some (c, a) => some (mkInternal c a)
-      | none => some e0
+  -- origin for the checker: the REFERENCE evaluation (documented `Coalesce(skip_exc=GlomError)`
+  -- default, independent of the extracted facts) says which exception object must reach the handler
+  let refF : Facts := { F with coalesceSkipDefault := ["GlomError"], frameCatch := ["Exception"] }
+  let refOutc := eval { F := refF, injMro := ci.mro } spec
+  let recCls := implInternal.map (·.1)
+  let checkOrigin : Option ExcObj := match refOutc with
+    | .val => none
+    | .exc .injected => some e0
+    | .exc (.internal c) => some (mkInternal c (match implInternal with
+        | some (c', a) => if c == c' then a else []
+        | none => []))
   let originAgree : Bool := match implOrigin, outc with
     | .null, .val => true
     | .str _, .val => true
@@ -251,15 +262,17 @@ def run (j : Json) : Except String Json := do
     | _, .exc .injected => implInternal.isNone && implOrigin != .null
     | _, .exc (.internal c) => (match implInternal with | some (c', _) => c == c' | none => false)
     | _, _ => false
-  if let (.str _, .exc (.internal _)) := (implOrigin, outc) then
+  if let (.str _, .exc (.internal _)) := (implOrigin, refOutc) then
     return Json.mkObj [("skip", true), ("why", "internal error without a recording frame")]
   let body : Body := match modelOrigin with | some e => .exc e | none => .val
   let res := glomTop F s body
   let modelObs := observe modelOrigin res
-  let implObs ← obsOfJson (← impl.getObjVal? "obs")
-  let holds := checkC04 s implOriginObj implObs
+  let implJ ← impl.getObjVal? "obs"
+  let implObs ← obsOfJson implJ outc recCls
+  let implObsRef ← obsOfJson implJ refOutc recCls
+  let holds := checkC04 s checkOrigin implObsRef
   let modelHolds := checkC04 s modelOrigin modelObs
-  let agree := classAgree && originAgree && modelObs == implObs
+  let agree := classAgree && originAgree && modelObs == implObs && outc == refOutc
   let originTag := match outc with
     | .val => "" | .exc .injected => "injected/" | .exc (.internal c) => s!"{c}/"
   return Json.mkObj [("agree", agree), ("holds", holds), ("model_holds", modelHolds),
